@@ -128,12 +128,17 @@ Tick ==
                    IF items[i].st = "run" /\ items[i].left > 0 THEN [items[i] EXCEPT !.left = @ - 1] ELSE items[i]]
     /\ UNCHANGED <<kinds, phase, tstart, tret, listening, srvdone>>
 
+AcceptAny == \E k \in kinds, d \in Durs : Accept(k, d)
+FinishAny == \E i \in DOMAIN items : Finish(i)
+DrainAny == \E k \in kinds : Drain(k)
+DeadlineAny == \E k \in kinds : Deadline(k)
+
 Next ==
-    \/ \E k \in kinds, d \in Durs : Accept(k, d)
-    \/ \E i \in DOMAIN items : Finish(i)
+    \/ AcceptAny
+    \/ FinishAny
     \/ ShutdownStart
-    \/ \E k \in kinds : Drain(k)
-    \/ \E k \in kinds : Deadline(k)
+    \/ DrainAny
+    \/ DeadlineAny
     \/ Return
     \/ Tick
 
